@@ -92,7 +92,33 @@ const CALLS_TWO_LINES: [Stmt; 5] = [
   Stmt { text: "baz(\n3)", plants: &[] },
 ];
 
-static LANGS: [LangSpec; 6] = [
+/// C statements (with their terminators; the call node excludes the `;`)
+const CALLS_SEMI: [Stmt; 5] = [
+  Stmt { text: "foo(1);", plants: &[(0, 0, 6)] },
+  Stmt { text: "bar(2);", plants: &[(1, 0, 6)] },
+  Stmt { text: "foo(bar(2));", plants: &[(0, 0, 11), (1, 4, 10)] },
+  Stmt { text: "foo(1); bar(2);", plants: &[(0, 0, 6), (1, 8, 14)] },
+  Stmt { text: "baz(3);", plants: &[] },
+];
+
+static LANGS: [LangSpec; 7] = [
+  // the lines follow a preprocessor directive, a node whose extent INCLUDES its line break (it ends
+  // at column 0 of the next line): an own-line comment right after it is still an own-line comment
+  LangSpec {
+    name: "c-after-preprocessor-line",
+    lang: SupportLang::C,
+    yaml_lang: "C",
+    stmts: CALLS_SEMI,
+    open: "// ",
+    close: "",
+    block_header: &["void f() {", "#define L 1"],
+    block_footer: &["}"],
+    indent: "",
+    // (`foo($$$)` alone is not a call in C: kind + regex instead)
+    r1: r#"{"kind": "call_expression", "regex": "^foo[(]"}"#,
+    r2: r#"{"kind": "call_expression", "regex": "^bar[(]"}"#,
+    fix: "qux()",
+  },
   LangSpec {
     name: "javascript-two-line-statements",
     lang: SupportLang::JavaScript,
@@ -881,10 +907,12 @@ fn main() {
   let thorough = args.thorough();
   let mut grids: Vec<Grid> = vec![];
   for lang in 0..LANGS.len() {
-    for n in 1..=(if thorough { 4 } else { 3 }) {
+    // (the preprocessor-line family is about the block header: block grids only)
+    let header_family = LANGS[lang].name == "c-after-preprocessor-line";
+    for n in 1..=(if header_family { 0 } else if thorough { 4 } else { 3 }) {
       grids.push(Grid { lang, block: false, table: "base", n });
     }
-    for n in 1..=(if thorough { 3 } else { 2 }) {
+    for n in 1..=(if header_family { 0 } else if thorough { 3 } else { 2 }) {
       grids.push(Grid { lang, block: false, table: "spelling", n });
     }
     for n in 1..=(if thorough { 3 } else { 2 }) {
